@@ -33,7 +33,17 @@ func c07Replay(c json.RawMessage) Verdict {
 	if e != "" {
 		return bad("could not build the table: %s", e)
 	}
-	n := c07Draws()
+	return c07CheckTable(t, cs.Id, cs.Pat, cs.W, cs.Elig, c07Draws())
+}
+
+// c07CheckTable: the clauses of C07 for one real table t whose weights are W and whose eligible sets are Elig
+func c07CheckTable(t codon.Table, id int, pat string, W sparse, Elig map[string]json.RawMessage, n int) Verdict {
+	cs := struct {
+		Id   int
+		Pat  string
+		W    sparse
+		Elig map[string]json.RawMessage
+	}{id, pat, W, Elig}
 	var dead []string
 	for aa, raw := range cs.Elig {
 		var el []string
@@ -155,6 +165,73 @@ func c07Record(tier string, seed int64, emit func(interface{})) {
 	_ = fmt.Sprint
 }
 
+// c07SessionReplay: one live table object driven through a history of in-place re-weightings (C07_Session)
+func c07SessionReplay(c json.RawMessage) Verdict {
+	type step struct {
+		W    sparse
+		Used bool
+	}
+	var cs struct {
+		Id   int
+		Hist []step
+		W    sparse
+		Elig map[string]json.RawMessage
+	}
+	if err := json.Unmarshal(c, &cs); err != nil {
+		fatal("C07 session case: %v", err)
+	}
+	coding := func(w sparse) string {
+		var b strings.Builder
+		for _, cd := range allCodons {
+			for i := 0; i < w.at(cd); i++ {
+				b.WriteString(cd)
+			}
+		}
+		return b.String()
+	}
+	// the live table: its own backing arrays (KF-C08-1 is about the shared defaults), kept for the whole history
+	t := roundtrip(codon.GetCodonTable(cs.Id), false)
+	_, letter, _ := projectTable(t)
+	for _, st := range cs.Hist {
+		t = t.OptimizeTable(coding(st.W))
+		if st.Used {
+			w, _, _ := projectTable(t)
+			if ls := encodableLetters(letter, w); len(ls) > 0 {
+				if _, errs := safeOptimize(strings.Repeat(string(ls), 3), t); errs != "" {
+					return bad("table %d: Optimize over the encodable letters %q fails at an earlier step: %s", cs.Id, ls, errs)
+				}
+			}
+		}
+	}
+	t = t.OptimizeTable(coding(cs.W))
+	got, _, perr := projectTable(t)
+	if perr != "" {
+		return bad("session table: %s", perr)
+	}
+	for _, cd := range allCodons {
+		if got[cd] != cs.W.at(cd) {
+			return bad("re-weighting in place: weight of %s is %d, the specification's state has %d", cd, got[cd], cs.W.at(cd))
+		}
+	}
+	n := 3000
+	if os.Getenv("VERIF_TIER_INTERNAL") == "thorough" {
+		n = 5000
+	}
+	v := c07CheckTable(t, cs.Id, fmt.Sprintf("after %d earlier re-weightings", len(cs.Hist)), cs.W, cs.Elig, n)
+	if v.V != "ok" {
+		return v
+	}
+	// Optimize must not have changed the table
+	after, _, _ := projectTable(t)
+	for _, cd := range allCodons {
+		if after[cd] != got[cd] {
+			return bad("Optimize changed the weight of %s from %d to %d", cd, got[cd], after[cd])
+		}
+	}
+	return ok(true)
+}
+
 func init() {
+	registry["C07S"] = &Prop{Replay: c07SessionReplay, Serial: true}
 	registry["C07"] = &Prop{Replay: c07Replay, Record: c07Record, Serial: true}
 }
